@@ -63,6 +63,29 @@ def cases(tier, seed, chaos=0.25):
         for cb in cbs:
             for sb in (rng.sample(subs, 3) if tier == 'quick' else subs):
                 add(h % (sb, cb), {}, ('hof-arity',))
+    # every numeric parameter of every built-in at the edges of the integer and double ranges (other arguments valid)
+    edges = ['-9223372036854775808', '9223372036854775807', '-9223372036854775809', '9223372036854775808', '1e19', '-1e19', '1e300', '-1e300', '2147483647', '2147483648', '-2147483648', '-2147483649',
+             '4294967296', '10000000', '10000001', '-10000000', '-10000001', '0.5', '-0.5', '1e-300', '-0', '1.7976931348623157e308', '-1.7976931348623157e308', '5e-324', '9007199254740993', '4611686018427387904', '-4611686018427387904']
+    valid = {'s': '"héllo wörld"', 'n': '2', 'x': '"v"', 'b': 'true', 'a': '[3,1,2]', 'an': '[3,1,2]', 'as': '["b","a"]', 'ao': '[{"a":1}]', 'o': '{"a":1}', 'f1': 'function($v){$v}', 'f2': 'function($p,$q){$p}',
+             'f': 'function($v){$v}', 'pic': '"#,##0.00"', 're': '/l+/', 'dpic': '"[Y]-[M01]"', 'fcmp': 'function($l,$r){$l > $r}'}
+    for (name, rt, ats) in BUILTINS + [('fromMillis', 's', ['n', 'dpic?', 's?']), ('formatNumber', 's', ['n', 'pic']), ('substring', 's', ['s', 'n', 'n?']), ('pad', 's', ['s', 'n', 's?']), ('round', 'n', ['n', 'n?']),
+                                       ('split', 'a', ['s', 's', 'n?']), ('replace', 's', ['s', 's', 's', 'n?']), ('match', 'a', ['s', 're', 'n?']), ('formatBase', 's', ['n', 'n?']), ('power', 'n', ['n', 'n'])]:
+        base = [a.rstrip('?') for a in ats]
+        for i, at in enumerate(base):
+            if at != 'n':
+                continue
+            for ed in (edges if tier != 'quick' else rng.sample(edges, 12)):
+                if name in ('pad',) and False:
+                    continue
+                args = [valid.get(t, '1') for t in base]
+                args[i] = ed
+                if name == 'split' and i == 2: args[1] = '"l"'
+                if name == 'replace': args[1] = '"l"'; args[2] = '"L"'
+                add('$%s(%s)' % (name, ', '.join(args)), {}, ('edge-int',))
+                if rng.random() < 0.2:
+                    add('$%s(%s)' % (name, ', '.join(args[:i] + ['v'] + args[i + 1:])), {'v': float(ed)}, ('edge-int',))
+    for ed in edges:
+        add('[1,2,3][%s]' % ed, {}, ('edge-int',)); add('"abc" ~> $substring(%s, %s)' % (ed, ed), {}, ('edge-int',)); add('[1..3][[0, %s]]' % ed, {}, ('edge-int',))
     # every built-in at every arity 0..4 with chaotic arguments
     atoms = ['1', '"s"', 'true', 'null', '[]', '[1,2]', '{}', '{"a":1}', '$sum', 'function($x){$x}', 'nothing', '/a/', '-1', '1e300', '""', '[[1]]', '["a","b"]', '$', 'a']
     for (name, rt, ats) in BUILTINS + [('error', 'x', ['s']), ('fromMillis', 's', ['n']), ('toMillis', 'n', ['s']), ('match', 'a', ['s', 'f']), ('encodeUrl', 's', ['s']), ('decodeUrl', 's', ['s'])]:
@@ -73,7 +96,7 @@ def cases(tier, seed, chaos=0.25):
 
 def run(tier, seed, replay=None):
     return simple_run('C09', tier, seed, replay,
-        'every higher-order built-in x 22 callbacks of arity 0..6 x 9 subjects; name steps on function values for every struct field identifier found in the implementation source x 18 consumers; type-directed (chaos 3%) and type-chaotic (chaos 25%) programs of depth <= 4 over every node type and every built-in at arities 0..4 with arguments of every kind incl. functions used as data, '
+        'every numeric parameter of every built-in at 27 edges of the integer/double ranges; every higher-order built-in x 22 callbacks of arity 0..6 x 9 subjects; name steps on function values for every struct field identifier found in the implementation source x 18 consumers; type-directed (chaos 3%) and type-chaotic (chaos 25%) programs of depth <= 4 over every node type and every built-in at arities 0..4 with arguments of every kind incl. functions used as data, '
         'nested arrays, regexes, huge numbers; JSON inputs incl. nulls, empty containers and arrays nested in arrays; corpus of every quoted witness; sizes bounded; '
         'a panic or hang of the implementation is the violation; outcome classes are also compared with the model; distinct = distinct (expression, input)',
         cases, owner_direct=(), value_compare=False, quiet_tie=True)
